@@ -39,6 +39,8 @@ type frame struct {
 	rets    []retPoint
 	npanic  map[ssa.Instruction]string
 	ghostAt map[string]Val
+	iterSt  map[int]*State
+	curIter *State
 }
 
 type retPoint struct {
@@ -458,6 +460,12 @@ func (fr *frame) execBlock(b *ssa.BasicBlock, st0 *State, reach0 string) {
 			}
 		}
 	}
+	if isHeader && !ex.discover {
+		if fr.iterSt == nil {
+			fr.iterSt = map[int]*State{}
+		}
+		fr.iterSt[fr.loops.ordinal[b]] = st.clone()
+	}
 	fr.reach[b] = reach
 	for _, ins := range b.Instrs {
 		if _, ok := ins.(*ssa.Phi); ok {
@@ -554,6 +562,14 @@ func (fr *frame) goTo(b *ssa.BasicBlock, succ *ssa.BasicBlock, cond string, st *
 		for _, inv := range fr.loopInvariants(ord) {
 			g := fr.evalClause(inv, succ, st, nil)
 			ex.oblige(fr.label(fmt.Sprintf("loop%d.%s.preserved", ord, inv.Label)), "invariant", inv.Props, imp(cond, g), inv.Pos, inv.Text)
+		}
+		if fr.c != nil && !ex.discover {
+			for _, cl := range fr.c.Steps[ord] {
+				fr.curIter = fr.iterSt[ord]
+				g := fr.evalClause(cl, succ, st, nil)
+				fr.curIter = nil
+				ex.oblige(fr.label(fmt.Sprintf("loop%d.%s.step", ord, cl.Label)), "invariant", cl.Props, imp(cond, g), cl.Pos, cl.Text)
+			}
 		}
 		for phi, ov := range saved {
 			fr.vals[phi] = ov
